@@ -33,7 +33,14 @@ def field_writes(fn, sym=None):
             last = ps[-1]
             if last["k"] != "field":
                 continue
-            out.append({"bb": bi, "si": si, "field": last.get("n"), "adt": last.get("adt"),
+            # a field of a struct that is itself a (private) field of another struct — `self.virtio.acked = ..` after related
+            # fields were grouped into an inner struct — is filed under the OUTER struct with the leaf field's name: rules
+            # find state by role ("the field of S written in arm X"), wherever inside S it is kept
+            adt = last.get("adt")
+            flds = [p for p in ps if p["k"] == "field"]
+            if len(flds) > 1 and all(p["k"] in ("field", "deref") for p in ps) and flds[0].get("adt"):
+                adt = flds[0].get("adt")
+            out.append({"bb": bi, "si": si, "field": last.get("n"), "adt": adt, "leaf_adt": last.get("adt"),
                         "base": st["lhs"]["l"], "proj": ps, "rv": st["rv"], "line": st.get("line")})
     return out
 
@@ -128,3 +135,51 @@ def returns_variant(fn, fb=None):
                 if rv["k"] == "agg" and rv.get("ak") == "adt":
                     out[bi] = rv["variant"]
     return out
+
+
+def concrete_arg_type(f, sym, t, idx):
+    """Type of call argument `idx`; when the call sits in an expanded generic helper (`&T`), the type of the caller's value
+    that was passed down."""
+    import re as _re
+    aty = t["atys"][idx]
+    if not _re.match(r"^&?(mut )?[A-Z][A-Za-z0-9]?$", aty.strip()):
+        return aty
+    op = t["args"][idx]
+    for _ in range(8):
+        if op["k"] not in ("copy", "move") or op["pl"]["p"]:
+            break
+        l = op["pl"]["l"]
+        ty = f.locals[l].get("ty") or ""
+        if not _re.match(r"^&?(mut )?[A-Z][A-Za-z0-9]?$", ty.strip()) and ty not in ("?", "&?", ""):
+            return ty
+        ds = sym.defs.get(l, [])
+        if len(ds) != 1 or ds[0][0] != "assign":
+            break
+        rv = ds[0][3]
+        if rv["k"] == "use":
+            op = rv["op"]
+        elif rv["k"] in ("ref", "rawptr") and [x["k"] for x in rv["pl"]["p"]] == ["deref"]:
+            op = {"k": "copy", "pl": {"l": rv["pl"]["l"], "p": []}}      # reborrow of a reference local
+        elif rv["k"] in ("ref", "rawptr") and not rv["pl"]["p"]:
+            ty = f.locals[rv["pl"]["l"]].get("ty") or ""
+            if not _re.match(r"^[A-Z][A-Za-z0-9]?$", ty.strip()) and ty not in ("?", ""):
+                return "&" + ty
+            # a by-value generic parameter of the expanded helper: the type of what was moved into it
+            l2 = rv["pl"]["l"]
+            for _h in range(4):
+                d2 = sym.defs.get(l2, [])
+                if len(d2) != 1 or d2[0][0] != "assign" or d2[0][3]["k"] != "use":
+                    break
+                o2 = d2[0][3]["op"]
+                if o2["k"] == "const":
+                    return "&" + (o2.get("ty") or "?")
+                if o2["pl"]["p"]:
+                    break
+                l2 = o2["pl"]["l"]
+                ty2 = f.locals[l2].get("ty") or ""
+                if not _re.match(r"^[A-Z][A-Za-z0-9]?$", ty2.strip()) and ty2 not in ("?", ""):
+                    return "&" + ty2
+            op = {"k": "copy", "pl": rv["pl"]}
+        else:
+            break
+    return aty
